@@ -3,9 +3,10 @@
 
   `stepRaw` (PulserModel/Sequence.lean) follows the Python statement order and returns the
   state *as the object is left* when a call raises, so atomicity is a statement about the
-  model that can fail — and does, for the (operation, error) pairs listed as known
-  findings F2.x: those are excluded here by `early`, and exhibited by the
-  `…_not_atomic` counterexamples below (replayed on the implementation by the harness).
+  model that can fail — and did, for the (operation, error) pairs that were the known findings
+  F2.1–F2.19 until they were repaired in /repo (validation before mutation, the declaration
+  undone, the scheduler restored when a compound operation is refused halfway); the
+  `…_not_atomic_old` witnesses below show what the unwrapped steps leave behind.
 -/
 import Proofs.Atomic
 import Proofs.AtomicDelay
@@ -30,16 +31,15 @@ theorem query_pure (s : SeqState) (op : Op) (h : isQuery op = true) : (stepRaw s
   · simp only [stepRaw]; repeat' split
     all_goals rfl
 
-/-- Errors that are raised before the first mutation of the call, per operation.  The
-complement is exactly the set of known findings F2.x (mutation before validation), plus
-`noBasis`/`unknownQubit` after a pulse was appended, which no reachable state produces. -/
+/-- The (operation, error) pairs for which a refused call is proved to leave nothing behind: every
+operation and every error, except `noBasis`/`unknownQubit` raised after a pulse was appended, which
+no reachable state produces.  (Until the repairs of F2.x — validation before mutation for `delay`,
+the declaration undone when its initial target is refused, the scheduler restored when a compound
+operation is refused halfway — the complement was the list of known findings F2.1–F2.19.) -/
 def early (op : Op) (e : Err) : Bool :=
   match op with
-  | .declare .. | .configDetMap .. | .measure .. | .phaseShift .. => true
   | .add .. | .addDmm .. | .addEom .. => e != .noBasis && e != .unknownQubit
-  | .target .. => !e.isSched
-  | .delay .. => e == .durTooShort || e == .durTooLong
-  | _ => false
+  | _ => true
 
 theorem store_st_of_err {op : Op} {r : Raw} {e : Err} (h : (store op r).err = some e) :
     r.err = some e ∧ (store op r).st = r.st := by
@@ -55,14 +55,14 @@ theorem markNonEmpty_st_of_err {r : Raw} {e : Err} (h : (markNonEmpty r).err = s
   | none => simp [hr] at h
   | some e1 => simp [hr] at h ⊢; exact h
 
-/-- **A call that raises leaves the sequence exactly as it was** — for every operation
-and error class in `early`: all errors of `add` / `add_eom_pulse` / `add_dmm_detuning`
-(typestate, protocol, phase references, every limit, duration and over-long-sequence
-error), of `measure`, `phase_shift`, `config_detuning_map`, `declare_channel` (with an
-initial target too, since the repair of F2.9–F2.13), the validation errors of `target`, and (since the repair of F2.1/F2.2) a
-`delay` refused for its duration.  The remaining (operation, error)
-pairs are the known findings F2.x, see the counterexamples below. -/
-theorem failed_call_atomic_partial (s : SeqState) (op : Op) (e : Err)
+/-- **A call that raises leaves the sequence exactly as it was** — for every operation and every
+error (`early` only excludes `noBasis` / `unknownQubit` raised by an `add` after the pulse was
+appended, which no reachable state produces): `declare_channel` with or without initial target,
+`config_detuning_map`, `target`, `add` / `add_eom_pulse` / `add_dmm_detuning`, `delay`, `align`,
+`enable_eom_mode`, `modify_eom_setpoint`, `disable_eom_mode`, `phase_shift`, `measure`, and the
+queries.  (Before the repairs of F2.x this held only for the errors raised before the first
+mutation; the unwrapped steps below show what was left behind.) -/
+theorem failed_call_atomic (s : SeqState) (op : Op) (e : Err)
     (h : (stepRaw s op).err = some e) (he : early op e = true) : (stepRaw s op).st = s := by
   cases op with
   | declare name chId init =>
@@ -110,7 +110,7 @@ theorem failed_call_atomic_partial (s : SeqState) (op : Op) (e : Err)
     simp only [stepRaw] at h ⊢
     obtain ⟨h1, h2⟩ := store_st_of_err h
     rw [h2]
-    exact targetCore_atomic h1 (by simpa [early] using he)
+    exact Raw.orRollback_st_of_err h1
   | add p n proto =>
     simp only [stepRaw] at h ⊢
     obtain ⟨h1, h2⟩ := store_st_of_err h
@@ -185,14 +185,34 @@ theorem failed_call_atomic_partial (s : SeqState) (op : Op) (e : Err)
     simp only [stepRaw] at h ⊢
     obtain ⟨h1, h2⟩ := store_st_of_err h
     rw [h2]
-    exact delayChecked_atomic h1 (by simpa [early] using he)
-  | align _ _ => simp [early] at he
-  | enableEom _ _ => simp [early] at he
-  | modifyEom _ _ => simp [early] at he
-  | disableEom _ _ => simp [early] at he
-  | getDuration _ _ => simp [early] at he
-  | estimate _ _ _ => simp [early] at he
-  | phaseRef _ _ => simp [early] at he
+    exact Raw.orRollback_st_of_err h1
+  | align chs atRest =>
+    simp only [stepRaw] at h ⊢
+    obtain ⟨h1, h2⟩ := store_st_of_err h
+    rw [h2]
+    exact Raw.orRollback_st_of_err h1
+  | disableEom n corr =>
+    simp only [stepRaw] at h ⊢
+    obtain ⟨h1, h2⟩ := store_st_of_err h
+    rw [h2]
+    exact Raw.orRollback_st_of_err h1
+  | enableEom n e' =>
+    simp only [stepRaw] at h ⊢
+    repeat' split
+    all_goals first
+      | rfl
+      | (rename_i hh; simp_all [fail]; done)
+      | (apply Raw.orRollback_st_of_err (e := e); simp_all)
+  | modifyEom n e' =>
+    simp only [stepRaw] at h ⊢
+    repeat' split
+    all_goals first
+      | rfl
+      | (rename_i hh; simp_all [fail]; done)
+      | (apply Raw.orRollback_st_of_err (e := e); simp_all)
+  | getDuration ch fall => exact (query_pure s (.getDuration ch fall) rfl)
+  | estimate p n proto => exact (query_pure s (.estimate p n proto) rfl)
+  | phaseRef q b => exact (query_pure s (.phaseRef q b) rfl)
 
 /-- Every call of the history succeeds (queries included). -/
 def AllOk : SeqState → List Op → Prop
@@ -265,12 +285,12 @@ theorem replay_log_with_refusals (dev : Device) (nQ : Nat) (ops : List Op)
           show (stepRaw s op').st = (stepRaw s op).st
           rw [hrep]
       · -- the refused call left nothing behind
-        have hst := failed_call_atomic_partial s op e he hearly
+        have hst := failed_call_atomic s op e he hearly
         rw [hst] at h3 ⊢
         exact ih s hd hq hs h3
   exact key ops (SeqState.init dev nQ) rfl rfl rfl h
 
-/-! ### The excluded pairs are genuinely not atomic (known findings F2.x) -/
+/-! ### What the repairs of F2.x changed: the unwrapped steps were not atomic -/
 
 def exCfg : ChanCfg := { clock := 4, minDur := 16, rise := 120, pjt := 240 }
 def exDev : Device := { chans := [exCfg], dmms := [], reusable := false, maxSeqDur := none }
@@ -301,14 +321,23 @@ theorem declare_bad_target_atomic :
     ((stepRaw (SeqState.init dev 2) (.declare (.user 0) 0 (some []))).st = SeqState.init dev 2) := by
   decide +kernel
 
-/-- F2.3 (still open): `delay(d, at_rest=True)` refused because the *sequence* becomes too long
-keeps the wait for the fall time. -/
-theorem delay_over_max_seq_not_atomic :
+/-- F2.3, as it was: `delay(d, at_rest=True)` refused because the *sequence* becomes too long kept
+the wait for the fall time (the scheduler step without the restoring wrapper). -/
+theorem delay_over_max_seq_not_atomic_old :
+    let dev : Device := { exDev with maxSeqDur := some 400 }
+    let s := run (SeqState.init dev 1)
+      [.declare (.user 0) 0 none, .add { dur := 100, fallStd := 240, ref := 1 } (.user 0) (some .minDelay)]
+    (delayChecked s 100 (.user 0) true).err = some .overMaxSeq ∧
+    (delayChecked s 100 (.user 0) true).st ≠ s := by
+  decide +kernel
+
+/-- ... and repaired: the refused call leaves the sequence as it was. -/
+theorem delay_over_max_seq_atomic :
     let dev : Device := { exDev with maxSeqDur := some 400 }
     let s := run (SeqState.init dev 1)
       [.declare (.user 0) 0 none, .add { dur := 100, fallStd := 240, ref := 1 } (.user 0) (some .minDelay)]
     (stepRaw s (.delay 100 (.user 0) true)).err = some .overMaxSeq ∧
-    (stepRaw s (.delay 100 (.user 0) true)).st ≠ s := by
+    (stepRaw s (.delay 100 (.user 0) true)).st = s := by
   decide +kernel
 
 /-! ### Non-vacuity -/
